@@ -12,7 +12,9 @@ A scenario is a JSON-able dict (see futb_model.scenario_to_coq for the same data
   plan     list of host indices returned by the load balancer (analytics: {'master': m|None} = DSE graph analytics request,
            m = host index answered by the master lookup, None = lookup failed)
   target   None | host index  (execute(..., host=...))
-  pools    initial pool state per host: 0 missing 1 shutdown 2 NoConnectionsAvailable 3 ConnectionBusy(send_msg)
+  inline   True: executor-first schedule for _retry_task (runs inside submit)
+  timeout  True: the request has a client timeout (5 s of the fake clock); pool state 7 lets it elapse inside borrow_connection
+  pools    initial pool state per host: 7 NoConnectionsAvailable after a borrow that outlasts the client timeout; 0 missing 1 shutdown 2 NoConnectionsAvailable 3 ConnectionBusy(send_msg)
            4 borrow raises other exception 5 send_msg raises ConnectionShutdown 6 healthy
   idem     is_idempotent of the statement executed ; pidem (optional) is_idempotent of its PreparedStatement
   spec     [policy present?, max_attempts]
@@ -46,10 +48,10 @@ def drv():
     return _loaded
 
 
-PMISSING, PSHUTDOWN, PNOCONN, PBUSY, PFAIL, PSENDFAIL, PHEALTHY = range(7)
+PMISSING, PSHUTDOWN, PNOCONN, PBUSY, PFAIL, PSENDFAIL, PHEALTHY, PNOCONNSLOW = range(8)
 KIND_NAMES = ['read_timeout', 'write_timeout', 'unavailable', 'overloaded', 'bootstrapping', 'truncate', 'server_error',
               'conn_exception', 'conn_shutdown']
-POOL_NAMES = ['missing', 'shutdown', 'no_connections', 'busy', 'borrow_fails', 'send_fails', 'healthy']
+POOL_NAMES = ['missing', 'shutdown', 'no_connections', 'busy', 'borrow_fails', 'send_fails', 'healthy', 'no_connections_slow']
 DECISION_NAMES = ['RETRY', 'RETHROW', 'IGNORE', 'RETRY_NEXT_HOST']
 
 
@@ -82,6 +84,15 @@ class Timer(object):
         self.cancelled = True
 
 
+class FakeClock(object):
+    """stands for the `time` module inside cassandra.cluster: time passes only where the scenario says so"""
+    def __init__(self):
+        self.now = 1000.0
+
+    def time(self):
+        return self.now
+
+
 class Env(object):
     def __init__(self, sc):
         self.sc = sc
@@ -97,6 +108,7 @@ class Env(object):
         self.defuncts = 0
         self.registry = {}      # id(response object) -> canonical
         self.nha_snap = {}
+        self.clock = FakeClock()
         self.shut = False       # Session.shutdown() happened
         self.conns = []         # every fake connection ever created (a reconnect makes a new one)
         self.fire_in_borrow = False
@@ -191,6 +203,10 @@ class FakePool(object):
                     t.cb()
                     break
         st = self.env.pool_state[self.hidx]
+        if st == PNOCONNSLOW:
+            # borrow_connection blocks (up to 2 s in the driver) before giving up: the request's client timeout elapses meanwhile
+            self.env.clock.now += 10.0
+            raise d['PO'].NoConnectionsAvailable()
         if st == PNOCONN:
             raise d['PO'].NoConnectionsAvailable()
         if st == PFAIL:
@@ -201,8 +217,9 @@ class FakePool(object):
 
     def return_connection(self, conn, stream_was_orphaned=False):
         self.env.returns += 1
-        with conn.lock:
-            conn.in_flight -= 1
+        if not stream_was_orphaned:        # HostConnection keeps the in-flight slot of an orphaned (timed-out) stream
+            with conn.lock:
+                conn.in_flight -= 1
 
 
 class FakeMetrics(object):
@@ -327,6 +344,11 @@ def make_session_class():
             # like Session.submit: runs nothing and returns None once the session is shut down, else the executor's future
             if self.env.shut:
                 return None
+            if self.env.sc.get('inline') and getattr(fn, '__name__', '') == '_retry_task':
+                # executor-first schedule: the executor thread runs the retry before the submitting (event-loop) thread
+                # executes its next statement
+                fn(*args, **kwargs)
+                return ('ran-inline',)
             task = (fn, args, kwargs)
             self.env.queue.append(task)
             return task
@@ -402,15 +424,12 @@ def classify_exc(env, hosts, e):
     if e is None:
         return None
     if isinstance(e, d['cluster'].NoHostAvailable):
-        # NoHostAvailable.errors IS the future's live _errors dict (no copy): canonical value = its content when the
-        # exception was first observed (end of the step that raised it)
-        if id(e) not in env.nha_snap:
-            out = [5, len(e.errors)]
-            for h, v in e.errors.items():
-                out += [hosts.index(h)] + classify_err(env, v)
-            env.nha_snap[id(e)] = out
-            env.keep.append(e)
-        return env.nha_snap[id(e)]
+        # NoHostAvailable.errors IS the future's live _errors dict in the driver (no copy): the canonical value is what it holds
+        # NOW (the model's XNoHost reads the current _errors too)
+        out = [5, len(e.errors)]
+        for h, v in e.errors.items():
+            out += [hosts.index(h)] + classify_err(env, v)
+        return out
     t = by_tag(env, e)
     if t:
         if t[0] == 'retryable':
@@ -431,6 +450,8 @@ def classify_exc(env, hosts, e):
         return [8]
     if isinstance(e, d['C'].ConnectionShutdown) and 'Session is shut down' in str(e):
         return [11]
+    if isinstance(e, d['cassandra'].OperationTimedOut):
+        return [12]
     if isinstance(e, AssertionError):
         return [9]
     if isinstance(e, AttributeError):
@@ -541,7 +562,7 @@ class Run(object):
             lb._cluster_metadata = _Meta()
         profile = d['cluster'].ExecutionProfile(load_balancing_policy=lb,
                                                 retry_policy=self.policy, consistency_level=sc['cl'],
-                                                request_timeout=None, speculative_execution_policy=spec_pol,
+                                                request_timeout=5.0 if sc.get('timeout') else None, speculative_execution_policy=spec_pol,
                                                 row_factory=lambda names, rows: ('rows', rows))
         if sc['ps'] is not None:
             query = self._ps(*sc['ps'])
@@ -561,7 +582,8 @@ class Run(object):
         else:
             query.is_idempotent = bool(sc['idem'])
         target = None if sc.get('target') is None else self.hosts[sc['target']]
-        self.future = self.session._create_response_future(query, params, False, None, None, execution_profile=profile,
+        d['cluster'].time = env.clock         # ResponseFuture reads the clock through cassandra.cluster.time
+        self.future = self.session._create_response_future(query, params, False, None, d['cluster']._NOT_SET, execution_profile=profile,
                                                            host=target)
         self.future._errors = RecordingDict(env, self.hosts)
         env.future = self.future
@@ -579,7 +601,8 @@ class Run(object):
 
     # ------------------------------------------------------------------ enabledness (mirrors the model)
     def open_attempts(self):
-        return [i for i, r in enumerate(self.env.sent) if not r.get('answered')]
+        # (a request popped from the connection by _on_timeout is orphaned: its answer would never reach the future)
+        return [i for i, r in enumerate(self.env.sent) if not r.get('answered') and r['rid'] in r['conn']._requests]
 
     def spec_armed(self):
         f = self.future
